@@ -171,6 +171,29 @@ def gen_world(rng):
             else:
                 files.append({"path": nm, "content": "import sys\n"})
                 entries.append({"path": nm, "kind": "shared-plain", "reads": nm, "c": [holder], "l": [expr]})
+    if glob_kind == "toml" and rng.chance(0.4):
+        # a REUSE.toml hierarchy: the nearest file that provides the information wins for 'closest', the topmost
+        # 'override' hides the deeper file - whatever the directory is called
+        D = rng.pick(["3rdparty", "Docs", "EXTERNAL", ".ci", "Qt", "vendor", "zlib", "A", "-x", "src/0core"])
+        used = {strip_plus(i) for e in entries for x in e["l"] for i in ids_of(x)}
+        expr_n = rng.pick(G.VALID)
+        holder_n, holder_r = "2017 Nested Holder", "2018 Root Holder"
+        mode = rng.pick(["closest", "closest", "override"])
+        if mode == "closest":
+            spare = [x for x in G.VALID if x not in used and x != expr_n]
+            expr_r = rng.pick(spare) if spare else expr_n
+            tables.append({"path": f"{D}/**", "precedence": "closest", "SPDX-FileCopyrightText": holder_r, "SPDX-License-Identifier": expr_r})
+            for nm in rng.sample(["n1.c", "n2.py", "deep/n3.c"], rng.randint(1, 3)):
+                files.append({"path": f"{D}/{nm}", "content": "nested content\n"})
+                entries.append({"path": f"{D}/{nm}", "kind": "nested-closest", "c": [holder_n], "l": [expr_n], "reads": f"{D}/{nm}"})
+        else:
+            expr_r = rng.pick(G.VALID)
+            tables.append({"path": f"{D}/**", "precedence": "override", "SPDX-FileCopyrightText": holder_r, "SPDX-License-Identifier": expr_r})
+            for nm in rng.sample(["n1.c", "n2.py", "deep/n3.c"], rng.randint(1, 3)):
+                files.append({"path": f"{D}/{nm}", "content": "nested content\n"})
+                entries.append({"path": f"{D}/{nm}", "kind": "nested-override", "c": [holder_r], "l": [expr_r], "reads": None, "shadowed": f"{D}/{nm}"})
+        files.append({"path": f"{D}/REUSE.toml", "content": G.reuse_toml([{"path": "**", "precedence": "closest", "SPDX-FileCopyrightText": holder_n,
+                                                                            "SPDX-License-Identifier": expr_n}])})
     if tables:
         files.append({"path": "REUSE.toml", "content": G.reuse_toml(tables)})
     if paras:
@@ -305,7 +328,13 @@ def gen_case(seed, tier, index=0):
     sizes = {f["path"]: len(f["content"].encode("utf-8", "surrogateescape")) for f in world["files"]}
 
     subdirs = sorted({posixpath.dirname(f["path"]).split("/")[0] for f in world["files"]
-                      if "/" in f["path"] and not f["path"].startswith((".", "LICENSES", "build", "vendor", "out", "subprojects"))})
+                      if "/" in f["path"] and not f["path"].startswith((".", "-", "LICENSES", "build", "vendor", "out", "subprojects"))})
+
+    above = False
+    if world.get("git") and rng.chance(0.2):
+        # the project is a sub-directory of a larger Git work tree: Git's ignore rules still apply to it, and the root has
+        # to be named (Git's own top level is the directory above)
+        world["git"]["above"] = above = True
 
     def env():
         e = {"readdir_key": rng.randrange(1 << 30) if rng.chance(0.7) else 0}
@@ -314,8 +343,10 @@ def gen_case(seed, tier, index=0):
             e["cwd"], e["root_opt"] = rng.pick(subdirs), ["--root", ".."]
         elif w == 1:
             e["cwd"], e["root_opt"] = "..", ["--root", "p"]
-        elif w == 2 and subdirs and world.get("git"):
+        elif w == 2 and subdirs and world.get("git") and not above:
             e["cwd"], e["root_opt"] = rng.pick(subdirs), []  # Git finds the root
+        elif above:
+            e["root_opt"] = ["--root", rng.pick([".", "$ROOT"])]
         if rng.chance(0.2):
             e["short_io"] = rng.pick([3, 64])
         ro = e.pop("root_opt", [])
@@ -478,7 +509,9 @@ def _valid(case):
             continue
         if e["reads"] is not None and e["reads"] not in present:
             return False
-        if e["kind"] in ("override", "closest", "aggregate", "shared-partial", "shared-plain") and "REUSE.toml" not in present:
+        if e["kind"] in ("override", "closest", "aggregate", "shared-partial", "shared-plain", "nested-closest", "nested-override") and "REUSE.toml" not in present:
+            return False
+        if e["kind"].startswith("nested-") and not any(p.endswith("/REUSE.toml") and e["path"].startswith(p[:-len("REUSE.toml")]) for p in present):
             return False
         if e["kind"] == "dep5" and ".reuse/dep5" not in present:
             return False
